@@ -3,11 +3,13 @@
 //! the limb-level Montgomery code of the pure-Rust fields against the Lean limb model.
 //!
 //! Request lines (see `lean/MidnightZK/Driver/C10.lean`):
-//!   `pf <Field> <op> <hex…>`, `lf <Field> <op> <limbs…>`, `const <Field> <NAME>`, `tw <Tower> <op> …`.
+//!   `pf <Field> <op> <hex…>`, `lf <Field> <op> <limbs…>`, `const <Field> <NAME>`, `tw <Tower> <op> …`,
+//!   `pl <Field> sum|product|batch_invert <list-descriptor>`, `pl <Field> chain <x0> <y> <prog> <n>` (see `batch.rs`).
 //! Oracles checked here directly (→ `oracle_fail`): agreement of all operator variants (by
 //! value / by reference / in place), `x * x⁻¹ = 1`, `sqrt(x)² = x`, codec round trips, decoders
 //! rejecting every non-canonical encoding without panicking, batched = element-wise.
 
+mod batch;
 mod limbs;
 mod pf;
 mod tower;
@@ -26,6 +28,18 @@ pub fn sz(ctx: &Ctx, q: usize, t: usize) -> usize {
     }
 }
 
+/// A panic of the implementation outside the per-case guards is a failing input of the property
+/// ("for every input"), not a crash of the harness: the remaining stages still run.
+fn guarded(ctx: &mut Ctx, stage: &str, f: fn(&mut Ctx)) {
+    if let Err(e) = mzkh::catch(|| f(ctx)) {
+        ctx.oracle_fail(
+            &format!("stage-panic:{stage}"),
+            "a field operation panicked outside the per-case guards of the harness",
+            serde_json::json!({"stage": stage, "panic": e, "hint": "rerun h-c10 with MZKH_VERBOSE=1 C10_TRACE=1 to see the location"}),
+        );
+    }
+}
+
 fn main() {
     // child mode used by the Sum/Product-by-reference probe (a regression of an infinite recursion)
     let args: Vec<String> = std::env::args().collect();
@@ -38,8 +52,9 @@ fn main() {
         return;
     }
     let mut ctx = Ctx::from_args("C10");
-    pf::run(&mut ctx);
-    limbs::run(&mut ctx);
-    tower::run(&mut ctx);
+    guarded(&mut ctx, "pf", pf::run);
+    guarded(&mut ctx, "limbs", limbs::run);
+    guarded(&mut ctx, "tower", tower::run);
+    guarded(&mut ctx, "batch", batch::run);
     ctx.finish();
 }
